@@ -27,8 +27,25 @@ def main():
     except common.MachineryError as e:
         print("MACHINERY-FAILURE %s: %s" % (prop, e))
         return 2
-    except Exception:
+    except Exception as e:
+        tb = traceback.extract_tb(e.__traceback__)
+        src = os.path.realpath(common.REPO_SRC)
+        inner = tb[-1].filename if tb else ""
         traceback.print_exc()
+        if os.path.realpath(inner).startswith(src) and not isinstance(e, (KeyboardInterrupt, MemoryError)):
+            # the code under test raised on an input inside the property's range (the same
+            # harness input passes on the unchanged tree): that is a violation, not a harness failure
+            import hashlib, json
+            rec = {"property": prop, "kind": "code_under_test_raised", "exception": repr(e),
+                   "where": "%s:%s in %s" % (tb[-1].filename, tb[-1].lineno, tb[-1].name),
+                   "traceback": traceback.format_exception(type(e), e, e.__traceback__)[-12:]}
+            d = os.path.join(common.REPLAYS, prop)
+            os.makedirs(d, exist_ok=True)
+            path = os.path.join(d, "code_under_test_raised_%s.json" % hashlib.sha1(repr(rec["where"]).encode()).hexdigest()[:12])
+            json.dump(rec, open(path, "w"), indent=1)
+            print("VIOLATION property=%s replay=%s" % (prop, path))
+            print("  the code under test raised %r at %s" % (e, rec["where"]))
+            return 1
         print("MACHINERY-FAILURE %s: unexpected exception in the harness" % prop)
         return 2
 
